@@ -1,5 +1,91 @@
-import TransportVerif.Model.Bridge
-import TransportVerif.Model.DPipe
+import TransportVerif.Link.Pipe
+import TransportVerif.Proofs.Pipe
+/-
+C18 — dpipe and Bridge preserve datagrams and apply exactly the scripted impairments.
+The statements below are FIXED; only the proofs may change.
+-/
 namespace TV.Props.C18
-theorem placeholder : True := trivial
+open TV TV.PipeSpec TV.PipeLink
+
+/-! ### Bridge: the code (two hand-duplicated directions, stack + inverse) is the script -/
+
+/-- one step of the Bridge model is one step of the script on the abstracted lanes, with the same
+    answer — for EVERY Bridge state (no invariant needed) and every operation, either direction -/
+theorem bridge_step_refines (b : Bridge.Bridge) (op : Bridge.Op) :
+    (absLane0 (Bridge.step b op).1, absLane1 (Bridge.step b op).1) = (specStep (absLane0 b, absLane1 b) op).1 ∧
+    (Bridge.step b op).2 = (specStep (absLane0 b, absLane1 b) op).2 :=
+  Proofs.Pipe.bridge_step_refines b op
+
+/-- hence for every script (any length, both directions, every impairment call in any order) the
+    Bridge answers exactly as the script semantics on lists -/
+theorem bridge_refines_script (ops : List Bridge.Op) (b : Bridge.Bridge) :
+    outsModel b ops = outsSpec (absLane0 b, absLane1 b) ops :=
+  Proofs.Pipe.bridge_refines_script ops b
+
+/-! ### what the script semantics guarantees (any lane, any script) -/
+
+/-- Conservation: at every point, the written messages are exactly (as a multiset) the delivered
+    ones, the discarded ones (by count, by filter, by Drop) and those still held (in flight or in an
+    unfinished reorder block).  Nothing is lost otherwise, duplicated or invented. -/
+theorem conservation (ops : List LaneOp) :
+    (runG Lane.new Ghost.empty ops).2.written.Perm
+      ((runG Lane.new Ghost.empty ops).2.delivered ++ (runG Lane.new Ghost.empty ops).2.discarded ++
+       (runG Lane.new Ghost.empty ops).1.inflight ++ (runG Lane.new Ghost.empty ops).1.block) :=
+  Proofs.Pipe.conservation ops
+
+/-- no message is delivered twice: distinct writes give distinct deliveries -/
+theorem no_dup (ops : List LaneOp) (h : (runG Lane.new Ghost.empty ops).2.written.Nodup) :
+    (runG Lane.new Ghost.empty ops).2.delivered.Nodup :=
+  Proofs.Pipe.no_dup ops h
+
+/-- nothing is invented: whatever is delivered was written -/
+theorem no_invention (ops : List LaneOp) (x : Msg)
+    (h : x ∈ (runG Lane.new Ghost.empty ops).2.delivered) : x ∈ (runG Lane.new Ghost.empty ops).2.written :=
+  Proofs.Pipe.no_invention ops x h
+
+/-- with no impairment requested the lane is a FIFO: deliveries followed by what is in flight are
+    the writes, in order -/
+theorem fifo_when_unimpaired (ops : List LaneOp) (h : ∀ op ∈ ops, op.plain = true) :
+    (runG Lane.new Ghost.empty ops).2.delivered ++ (runG Lane.new Ghost.empty ops).1.inflight =
+    (runG Lane.new Ghost.empty ops).2.written :=
+  Proofs.Pipe.fifo_when_unimpaired ops h
+
+/-- a requested block of n ≥ 1 writes is released reversed, behind everything in flight -/
+theorem reorder_block_reversed (l : Lane) (xs : List Msg) (hx : xs ≠ [])
+    (hd : l.pendingDrop ≤ 0) (hb : l.block = []) :
+    ((xs.foldl (fun (l : Lane) x => l.write x) { l with pendingReorder := xs.length }).inflight
+      = l.inflight ++ xs.reverse) ∧
+    (xs.foldl (fun (l : Lane) x => l.write x) { l with pendingReorder := xs.length }).block = [] :=
+  Proofs.Pipe.reorder_block_reversed l xs hx hd hb
+
+/-- a delivery hands over the oldest in-flight message, cut to the reader's slice -/
+theorem deliver_is_head_cut (l : Lane) (x : Msg) (rest : List Msg) (n : Nat) (h : l.inflight = x :: rest) :
+    (l.deliver n).2 = some (x.take n) ∧ (l.deliver n).1.inflight = rest :=
+  Proofs.Pipe.deliver_is_head_cut l x rest n h
+
+/-! ### dpipe -/
+
+theorem dpipe_step_refines (p : DPipe.Pipe) (op : DPipe.Op) :
+    absPipe (DPipe.step p op).1 = (specStepD (absPipe p) op).1 ∧ (DPipe.step p op).2 = (specStepD (absPipe p) op).2 :=
+  Proofs.Pipe.dpipe_step_refines p op
+
+/-- every history of writes, reads and closes on both ends answers as two bounded message FIFOs -/
+theorem dpipe_is_message_fifo (ops : List DPipe.Op) (p : DPipe.Pipe) :
+    outsModelD p ops = outsSpecD (absPipe p) ops :=
+  Proofs.Pipe.dpipe_is_message_fifo ops p
+
+/-- closing one end does not affect the other: the answer of a read or write at end `1-e` is the
+    same whether or not end `e` has been closed -/
+theorem dpipe_close_is_local (p : DPipe.Pipe) (e : Nat) (he : e = 0 ∨ e = 1) (x : Msg) (n : Nat) :
+    ((p.close e).write (1 - e) x).2 = (p.write (1 - e) x).2 ∧
+    ((p.close e).read (1 - e) n).2 = (p.read (1 - e) n).2 :=
+  Proofs.Pipe.dpipe_close_is_local p e he x n
+
+-- non-vacuity: ReorderNextNWrites used twice (the pinned tree delivered B A D C A B here)
+example : outsModel Bridge.Bridge.new
+    [.reorderNext 0 2, .write 0 [1], .write 0 [2], .reorderNext 0 2, .write 0 [3], .write 0 [4],
+     .deliver 0 9, .deliver 0 9, .deliver 0 9, .deliver 0 9, .deliver 0 9]
+  = [.unit, .unit, .unit, .unit, .unit, .unit, .delivered (some [2]), .delivered (some [1]),
+     .delivered (some [4]), .delivered (some [3]), .delivered none] := by decide
+
 end TV.Props.C18
